@@ -529,6 +529,11 @@ func (r *Run) callSSA(caller *frame, callpos token.Pos, fn *ssa.Function, args [
 		fn:     fn,
 	}
 	if fn.Parent() == nil {
+		if caller != nil && fn.Synthetic == "package initializer" {
+			// initialisation is lazy and non-transitive: imported packages are
+			// initialised on first access to one of their globals
+			return nil
+		}
 		key := fnKey(fn)
 		if ext := r.eng.intrinsics[key]; ext != nil {
 			r.stubs[key]++
@@ -775,7 +780,7 @@ func (r *Run) initPackage(pkg *ssa.Package) {
 					msg = ra.msg
 				}
 				if tp, isTP := p.(targetPanic); isTP {
-					msg = "panic: " + toString(tp.v)
+					msg = "panic: " + r.panicString(tp)
 				}
 				r.eng.noteInitFailure(pkg.Pkg.Path(), msg)
 				written := r.eng.initStores(pkg)
